@@ -128,6 +128,22 @@ def hdrSet (hs : List (Bytes × Bytes)) (k v : Bytes) : List (Bytes × Bytes) :=
     if lower k' = lower k then (k', if v'.isEmpty then v else v' ++ [44, 32] ++ v) :: t
     else (k', v') :: hdrSet t k v
 
+/-- one header line (already known to end in CRLF and not to be the blank line):
+    continuation line or `k, v = line.split(b':', 1)`; returns the new "current key" and header list -/
+def hdrStep (line : Bytes) (lastKey : Option Bytes) (hs : List (Bytes × Bytes)) :
+    Except Err (Option Bytes × List (Bytes × Bytes)) :=
+  match line with
+  | [] => .error .eofHeaders
+  | c :: _ =>
+    if c = 32 || c = 9 then
+      match lastKey with
+      | none => .error .badContinuation
+      | some k => .ok (lastKey, hdrSet hs k (strip line))
+    else
+      match splitColon line with
+      | none => .error .noColon
+      | some (k, v) => .ok (some (strip k), hdrSet hs (strip k) (strip v))
+
 def readHeaders : Nat → Src → Option Bytes → List (Bytes × Bytes) →
     Except Err (List (Bytes × Bytes) × Src)
   | 0, _, _, _ => .error .fuel
@@ -136,17 +152,9 @@ def readHeaders : Nat → Src → Option Bytes → List (Bytes × Bytes) →
     if line.isEmpty then .error .eofHeaders else
     if line = CRLF then .ok (hs, src1) else
     if !endsWith line CRLF then .error .noCRLF else
-    match line with
-    | [] => .error .eofHeaders
-    | c :: _ =>
-      if c = 32 || c = 9 then
-        match lastKey with
-        | none => .error .badContinuation
-        | some k => readHeaders fuel src1 lastKey (hdrSet hs k (strip line))
-      else
-        match splitColon line with
-        | none => .error .noColon
-        | some (k, v) => readHeaders fuel src1 (some (strip k)) (hdrSet hs (strip k) (strip v))
+    match hdrStep line lastKey hs with
+    | .error e => .error e
+    | .ok (lk, hs') => readHeaders fuel src1 lk hs'
 
 /-! ### process_multipart -/
 
